@@ -33,7 +33,7 @@ class C09(core.Check):
         'expands-to:expression', 'source:isa', 'source:cli', 'source:define', 'unparenthesised-expression-value', 'double:identical-text',
         'cycle:replacement-is-the-bare-name-itself', 'quoted-value-used', 'quoted-value-with-blank-run', 'valueless-symbol-used', 'define-while-muted', 'same-line-text-repeated', 'quoted-value-from:isa', 'quoted-value-from:cli', 'quoted-value-from:define',
         'symbol-inside-a-string', 'symbol-inside-a-string:replaced', 'config-symbol-value-written-as-a-number',
-        'adjacent:case', 'symbol-and-its-other-case-twin-on-one-line']}
+        'adjacent:case', 'symbol-and-its-other-case-twin-on-one-line', 'config-symbol-value-is-the-number-0']}
 
     def build(self, rng, mode, quoted=None, muted=None, nil=None, in_string=None):
         tags = set()
@@ -111,7 +111,7 @@ class C09(core.Check):
                 txt = f'({rng.randrange(1, 50)} * 2)'
                 tags.add('expands-to:expression')
             else:
-                txt = gen_prog.num_text(rng.randrange(0, 300), rng)
+                txt = gen_prog.num_text(rng.randrange(0, 300), rng) if rng.random() < 0.8 else '0'
             defs.append((nm, txt, None))
             prev.append(nm)
         # chain depth
@@ -332,8 +332,10 @@ class C09(core.Check):
         if isa_syms:
             # a replacement that reads as a decimal number is also written as a number in the configuration file (value: 5)
             def _cfgval(t_):
-                if re.fullmatch(r'[1-9]\d{0,5}|0', t_) and (len(t_) + sum(map(ord, t_))) % 2 == 0:
+                if re.fullmatch(r'[1-9]\d{0,5}|0', t_) and (t_ == '0' or (len(t_) + sum(map(ord, t_))) % 2 == 0):
                     tags.add('config-symbol-value-written-as-a-number')
+                    if t_ == '0':
+                        tags.add('config-symbol-value-is-the-number-0')
                     return int(t_)
                 return t_
             isa.setdefault('predefined', {})['symbols'] = [{'name': n, 'value': _cfgval(t)} if t != '' else {'name': n} for n, t in isa_syms]
